@@ -83,8 +83,9 @@ def run(ctx, rep):
     past_hash_cleared_rule(P, rep, 'R-C07-3d')
     zero_marker_kept_rule(P, rep, 'R-C07-3z')
     # recovery in the intermediate state of an interrupted sync goes through repair(): the buffers it zeroes / inspects are those of the failed disk
-    from .C05 import buffer_slot_rule
+    from .C05 import buffer_slot_rule, old_state_strategy_rule
     buffer_slot_rule(P, rep, 'R-C07-10')
+    old_state_strategy_rule(P, rep, 'R-C07-11')
     from .C11 import need_write_rule
     need_write_rule(P, rep, 'R-C07-8')
     # the pre-sync save must keep the DELETED blocks of a disk without files: they are the memory of a pending parity update
